@@ -21,9 +21,9 @@ ASSUMPTIONS = [
     "A2: vsched's model of pthread_create/join is faithful; the new thread's first instruction is a scheduling point",
     "liveness of the callable is observed through a canary poisoned by its destructor and by overwriting the dead stack after start() "
     "returns (harness built with -O0 -fno-inline -fno-lifetime-dse so that start() has its own frame)",
-    "on the plain build the new thread cannot run between pthread_create and the return of start() (no scheduling point there); the "
-    "access-instrumented build makes every atomic operation a scheduling point, so those executions include the new thread running "
-    "and finishing inside start()",
+    "scripted replays have no scheduling point between pthread_create and the return of start() (ThreadStart.tla has no such step); random "
+    "executions have one right after pthread_create, and the access-instrumented build additionally makes every atomic operation a "
+    "scheduling point, so those executions include the new thread running and finishing inside start()",
 ]
 PC_S = {"init": "MARK", "spawn": "CREATE", "after": "MARK", "join": "JOIN", "done": "FIN"}
 PC_T = {"created": "START", "in": "MARK", "exited": "FIN"}
